@@ -226,3 +226,12 @@ PROPS["C24"] = dict(
     contracts=[], harness="harness.durable_native:C24", level="exploration", technique="bounded model-based runtime check against dict-of-value / list / ordered-set models with a real LMDB store -- stand-in",
     explanation="Bounded stand-in: random sequences (<= 9) of put/pin/add/get/pop/rem/cnt on Suber, IoSuber, IoSetSuber over adversarial key sets (prefixes of each other, keys containing the "
                 "separator, keys that look like another key's io-key); after every operation EVERY key of the set is read back and compared with the model (non-interference).")
+
+PROPS["C28"] = dict(
+    contracts=[], harness="harness.c28", level="exploration", technique="bounded runtime contract `type(r) is cls and r == self` for r = cls._fromX(self._asX()) -- stand-in (thin wrappers around json/cbor2/msgpack and dataclass reflection)",
+    explanation="Bounded stand-in only: generated registered data objects (flat, nested one and two levels, RawDom) with fields from the common representable domain, three codecs, classes "
+                "defined in modules with and without `from __future__ import annotations`, and malformed messages injected mid-run (state surviving between conversions).")
+PROPS["C29"] = dict(
+    contracts=[], harness="harness.c29", level="exploration", technique="bounded runtime precondition on every filesystem call of the real Filer (inside the head directory), in a throw-away sandbox -- stand-in",
+    explanation="Bounded stand-in only: all combinations of temp, clean, filed, extensioned x names/bases incl. dotted and `..` segments (sampled in the quick tier, exhaustive in thorough), each followed by "
+                "close(clear) / reopen(clear) / reopen(temp=True, clear=True); makedirs/remove/rmtree/open arguments must resolve inside the head (or the Filer's own mkdtemp dir); sibling and outside content must survive.")
